@@ -176,6 +176,13 @@ macro "rep_vec" h:term : tactic =>
              all_goals (first | rfl | ring1 | mandel_ring $h)))
 
 omit hc h2 in
+theorem w_lit (c : K) : w c 0 = 1 ∧ w c 1 = 1 ∧ w c 2 = 1 ∧ w c 3 = c ∧ w c 4 = c ∧ w c 5 = c :=
+  ⟨rfl, rfl, rfl, rfl, rfl, rfl⟩
+omit hc h2 in
+theorem iw_lit (c : K) :
+    iw c 0 = 1 ∧ iw c 1 = 1 ∧ iw c 2 = 1 ∧ iw c 3 = c / 2 ∧ iw c 4 = c / 2 ∧ iw c 5 = c / 2 :=
+  ⟨rfl, rfl, rfl, rfl, rfl, rfl⟩
+omit hc h2 in
 /-- a row of the symmetric storage is a diagonal row (`w = iw = 1`) or a shear row (`w = √2`, `iw = 1/√2`) -/
 theorem w_iw_cases (c : K) (I : Fin 6) : (w c I = 1 ∧ iw c I = 1) ∨ (w c I = c ∧ iw c I = c / 2) := by
   fin_cases I <;> simp [w, iw]
@@ -186,15 +193,16 @@ macro "rep_mat" h:term : tactic =>
   `(tactic| (
       funext I J
       simp only [T4.stoST, T4.stoTT, T4.stoTS, T4.stoS2T, T4.ofST, T4.ofTT, T4.ofTS, T4.ofS2T, T2.ofTens, T2.ofSt,
-        T4.comp, T4.transpose, T2.dyad, vi_pS, ti_pT, iw2_eq $h h2, w2_eq $h, sum3, sumS, sumT, vi, ti]
+        T4.comp, T4.transpose, T2.dyad, vi_pS, ti_pT, iw2_eq $h h2, w2_eq $h, sum3, sumS, sumT]
+      simp only [vi, ti]
       first
         | ring1
         | (rcases w_iw_cases c I with ⟨e1, e2⟩ | ⟨e1, e2⟩ <;> rcases w_iw_cases c J with ⟨f1, f2⟩ | ⟨f1, f2⟩ <;>
-             simp only [e1, e2, f1, f2, w, iw] <;> (first | ring1 | mandel_ring $h))
+             simp only [e1, e2, f1, f2, (w_lit c).1, (w_lit c).2.1, (w_lit c).2.2.1, (w_lit c).2.2.2.1, (w_lit c).2.2.2.2.1, (w_lit c).2.2.2.2.2, (iw_lit c).1, (iw_lit c).2.1, (iw_lit c).2.2.1, (iw_lit c).2.2.2.1, (iw_lit c).2.2.2.2.1, (iw_lit c).2.2.2.2.2] <;> (first | ring1 | mandel_ring $h))
         | (rcases w_iw_cases c I with ⟨e1, e2⟩ | ⟨e1, e2⟩ <;>
-             simp only [e1, e2, w, iw] <;> (first | ring1 | mandel_ring $h))
+             simp only [e1, e2, (w_lit c).1, (w_lit c).2.1, (w_lit c).2.2.1, (w_lit c).2.2.2.1, (w_lit c).2.2.2.2.1, (w_lit c).2.2.2.2.2, (iw_lit c).1, (iw_lit c).2.1, (iw_lit c).2.2.1, (iw_lit c).2.2.2.1, (iw_lit c).2.2.2.2.1, (iw_lit c).2.2.2.2.2] <;> (first | ring1 | mandel_ring $h))
         | (rcases w_iw_cases c J with ⟨f1, f2⟩ | ⟨f1, f2⟩ <;>
-             simp only [f1, f2, w, iw] <;> (first | ring1 | mandel_ring $h))))
+             simp only [f1, f2, (w_lit c).1, (w_lit c).2.1, (w_lit c).2.2.1, (w_lit c).2.2.2.1, (w_lit c).2.2.2.2.1, (w_lit c).2.2.2.2.2, (iw_lit c).1, (iw_lit c).2.1, (iw_lit c).2.2.1, (iw_lit c).2.2.2.1, (iw_lit c).2.2.2.2.1, (iw_lit c).2.2.2.2.2] <;> (first | ring1 | mandel_ring $h))))
 
 theorem stoST_comp_ST_ST (a b : Fin 6 → Fin 6 → K) :
     T4.stoST c (T4.comp (T4.ofST c a) (T4.ofST c b)) = fun I J => sumS fun L => a I L * b L J := by rep_mat hc
